@@ -25,6 +25,67 @@ DERIVE = re.compile(r'#\[derive\(([^\]]*)\)\]')
 
 
 CLOSURE_HEAD = re.compile(r'[(,=]\s*(?:move\s+)?\|[^|\n]*\|')
+def _norm_tokens(text):
+    """token texts without comments and without a trailing comma before a closing bracket (formatting only)"""
+    toks = [t for t in rsparse.tokenize(text) if t.kind != 'com']
+    out = []
+    for k, t in enumerate(toks):
+        if t.text == ',' and k + 1 < len(toks) and toks[k + 1].text in (')', ']', '}'):
+            continue
+        out.append(t)
+    return out
+
+
+def _locate_anchor(body, blines, anchor, nth):
+    """(first line index, last line index, note) of the nth occurrence of the anchor statement in body.
+    1. a line that equals the anchor; 2. the anchor's token sequence anywhere (the statement was re-wrapped);
+    3. approximately: the lines / token windows closest to it (an operand was renamed, a temporary introduced)."""
+    idxs = [i for i, l in enumerate(blines) if l.strip() == anchor]
+    if nth < len(idxs):
+        return idxs[nth], idxs[nth], None
+    if idxs:
+        return None
+    import difflib, bisect
+    at = [t.text for t in _norm_tokens(anchor)]
+    if not at:
+        return None
+    bt = _norm_tokens(body)
+    texts = [t.text for t in bt]
+    starts = [0]
+    for l in blines:
+        starts.append(starts[-1] + len(l) + 1)
+    line_of = lambda off: bisect.bisect_right(starts, off) - 1
+    n = len(at)
+    hits = [k for k in range(len(texts) - n + 1) if texts[k] == at[0] and texts[k:k + n] == at]
+    if nth < len(hits):
+        k = hits[nth]
+        return line_of(bt[k].start), line_of(bt[k + n - 1].start), 're-wrapped statement matched token-wise'
+    if hits:
+        return None
+    cand = []
+    for k in range(len(texts)):
+        if texts[k] != at[0]:
+            continue
+        best = None
+        for m in range(max(1, n - 4), n + 5):
+            if k + m > len(texts):
+                break
+            r = difflib.SequenceMatcher(None, at, texts[k:k + m]).ratio()
+            if best is None or r > best[0]:
+                best = (r, m)
+        if best and best[0] >= 0.72:
+            if cand and k < cand[-1][0] + cand[-1][1]:
+                if best[0] > cand[-1][2]:
+                    cand[-1] = (k, best[1], best[0])
+                continue
+            cand.append((k, best[1], best[0]))
+    if nth < len(cand):
+        k, m, r = cand[nth]
+        l0, l1 = line_of(bt[k].start), line_of(bt[k + m - 1].start)
+        return l0, l1, 'matched approximately to %r' % ' '.join(texts[k:k + m])[:90]
+    return None
+
+
 RUST_KW = set('as break const continue crate else enum extern false fn for if impl in let loop match mod move mut pub ref return self Self static struct super trait true type unsafe use where while async await dyn'.split())
 
 
@@ -260,16 +321,28 @@ class Unit:
                 self._base_idents = {}
         old = self._base_idents.get(key)
         new = self.fn_idents.get(key)
-        if not old or not new or old == new or len(old) != len(new):
+        if not old or not new or old == new:
             return {}
         olds, news = set(old), set(new)
+        gone = [a for a in old if a not in news]     # names that vanished from the function, in order of first occurrence
+        fresh = [b for b in new if b not in olds]    # names new to the function, in order of first occurrence
+        if not gone or len(gone) > len(fresh):
+            return {}
+        if len(gone) == len(fresh):
+            return dict(zip(gone, fresh))
+        # more fresh names than vanished ones (the edit also introduced temporaries): pair each vanished name with the fresh
+        # name at the nearest relative position, keeping the order
         ren = {}
-        for a, b in zip(old, new):
-            if a == b:
-                continue
-            if a in news or b in olds:
-                return {}
-            ren[a] = b
+        j = 0
+        for a in gone:
+            pa = old.index(a) / max(1, len(old))
+            best = None
+            for k in range(j, len(fresh) - (len(gone) - len(ren) - 1)):
+                d = abs(new.index(fresh[k]) / max(1, len(new)) - pa)
+                if best is None or d < best[0]:
+                    best = (d, k)
+            ren[a] = fresh[best[1]]
+            j = best[1] + 1
         return ren
 
     # ---------------------------------------------------------------- contract splice
@@ -301,6 +374,22 @@ class Unit:
                 pos = body.find(cc.header, pos + 1)
                 if pos < 0:
                     break
+            if pos < 0:
+                # the closure parameter may have been renamed: match the head with the parameter names as wildcards
+                m0 = re.match(r'^(.*?)\|\s*(\w+)\s*\|$', cc.header, re.S)
+                if m0:
+                    hits = list(re.finditer(re.escape(m0.group(1)) + r'\|\s*(\w+)\s*\|', body))
+                    if len(hits) > cc.nth:
+                        import copy
+                        h = hits[cc.nth]
+                        oldp, newp = m0.group(2), h.group(1)
+                        cc = copy.deepcopy(cc)
+                        f = lambda t: re.sub(r'(?<![\w.])%s\b' % re.escape(oldp), newp, t)
+                        cc.header = h.group(0)
+                        cc.new_header = f(cc.new_header)
+                        cc.clauses = [(sec, [f(l) for l in lines]) for sec, lines in cc.clauses]
+                        pos = h.start()
+                        self.relaxed.append('%s: closure contract follows renamed parameter %s -> %s' % (key, oldp, newp))
             if pos < 0:
                 # relaxed anchor: the closure is gone from the current text; its contract is skipped (the obligations that
                 # relied on it then fail or the file is rejected, never a silent pass: they are named in the baseline)
@@ -387,13 +476,17 @@ class Unit:
                     body = body[:m.end()] + bind + ': ' + body[m.end():]
         for where_, nth, anchor, lines in c.inserts:
             blines = body.split('\n')
-            idxs = [i for i, l in enumerate(blines) if l.strip() == anchor]
-            if nth >= len(idxs):
+            loc = _locate_anchor(body, blines, anchor, nth)
+            if loc is None:
                 # relaxed anchor: a proof hint whose anchor line is gone is skipped (hints are ghost; skipping one can
                 # only make the proof harder, never make a wrong program verify)
                 self.relaxed.append('%s: hint anchor %r #%d not found, hint skipped' % (key, anchor, nth))
                 continue
-            i = idxs[nth]
+            first_line, last_line, note = loc
+            if note:
+                self.relaxed.append('%s: hint anchor %r #%d %s' % (key, anchor, nth, note))
+            idxs = None
+            i = first_line if where_ == 'before' else last_line
             hid = '%s#%s%d:%s' % (key, where_, nth, anchor[:40])
             if hid in self.disabled_hints:
                 self.relaxed.append('%s: hint %s %d %r dropped (it no longer type-checks in the changed code)' % (key, where_, nth, anchor[:40]))
